@@ -96,7 +96,7 @@ pub fn case(tape: &[u32]) -> CaseOutcome {
     for lazy in [false, true] {
         let mode = if lazy { "lazy" } else { "strict" };
         let d = |extra| detail(dsl, &source, &program.gen.globals, extra);
-        let (actual, _) = run(&file, &tree, &index, &source, &program.gen.globals, &ExecOpts { lazy, debug: None });
+        let (actual, _) = run_capped(&file, &tree, &index, &source, &program.gen.globals, &ExecOpts { lazy, debug: None }, model.poll_cap());
         report.evaluations += 1;
         let err = match actual {
             LibRun::Err(e) => e,
